@@ -557,6 +557,8 @@ epoll_dispatch(struct event_base *base, struct timeval *tv)
 
 		if (what & EPOLLERR) {
 			ev = EV_READ | EV_WRITE;
+			if (what & EPOLLRDHUP)
+				ev |= EV_CLOSED;
 		} else if ((what & EPOLLHUP) && !(what & EPOLLRDHUP)) {
 			ev = EV_READ | EV_WRITE;
 		} else {
